@@ -180,6 +180,30 @@ func (i *interpreter) scaledValue(recv value, target int64) value {
 	}
 }
 
+// statusOfError returns (Reason, Code) when err is a *apierrors.StatusError, ("", 0) otherwise.
+func (i *interpreter) statusOfError(v value) (value, value) {
+	e, ok := v.(iface)
+	if !ok || e.t == nil {
+		return "", int32(0)
+	}
+	pt, ok := e.t.(*types.Pointer)
+	if !ok {
+		return "", int32(0)
+	}
+	nt, ok := pt.Elem().(*types.Named)
+	if !ok || nt.Obj().Name() != "StatusError" || nt.Obj().Pkg() == nil || nt.Obj().Pkg().Path() != "k8s.io/apimachinery/pkg/api/errors" {
+		return "", int32(0)
+	}
+	p, _ := e.v.(*value)
+	if p == nil {
+		return "", int32(0)
+	}
+	se := (*p).(structure)
+	stT := nt.Underlying().(*types.Struct).Field(0).Type() // ErrStatus metav1.Status
+	st := se[0].(structure)
+	return st[fieldIndex(stT, "Reason")], st[fieldIndex(stT, "Code")]
+}
+
 // ---- helpers ---------------------------------------------------------------
 
 func (i *interpreter) callMethod(recv iface, name string) value {
@@ -584,6 +608,15 @@ func init() {
 			return "‹quantity›"
 		},
 		"k8s.io/apimachinery/pkg/labels.Everything": func(fr *frame, a []value) value { return iface{} },
+		// apierrors classify errors through errors.As (reflection): read the *StatusError directly
+		"k8s.io/apimachinery/pkg/api/errors.reasonAndCodeForError": func(fr *frame, a []value) value {
+			r, c := fr.i.statusOfError(a[0])
+			return tuple{r, c}
+		},
+		"k8s.io/apimachinery/pkg/api/errors.ReasonForError": func(fr *frame, a []value) value {
+			r, _ := fr.i.statusOfError(a[0])
+			return r
+		},
 	} {
 		stubs[k] = v
 	}
